@@ -15,9 +15,12 @@
   the syndrome of an error — `smwpm_toric_assert_never_fires(_reachable)`; the `assert` fires iff the number of X-type
   defects is odd (`smwpm_toric_assert_iff`), which happens for arbitrary bit arrays (`assert_fires_bounded`).
 
-  STATED, NOT PROVED:
+  STATED, NOT PROVED (in this file) — AUDIT: NOW PROVED elsewhere:
   * the t-parity outputs (`custom_values`, `success`) as functions of the matchings — their bookkeeping is
     Model/Ftp.lean / Props/C03.lean with the clusters as parameters.
+      → Model/SmwpmTp.lean (`Smwpm.Toric.stageTps`, `decodeFtp`) + Props/C03/TParity.lean (`result_shape`,
+        `stage_tparities_are_wrap_parities`, `cluster_match_order_irrelevant`,
+        `custom_values_are_total_crossing_parities`, `success_iff`, `single_step_all_zero`).
 -/
 import QecVerif.Props.C02
 import QecVerif.Props.C15.RotatedToric
